@@ -280,6 +280,79 @@ func c07QueueFull(w *fw.Worker, i int, r *fw.Rand) {
 	}
 }
 
+// c07BlankWatcherCancel: Blank.SetSource(<a watching source>) whose context ends while the monitor is busy (parked in
+// Verify for another source's report) must return with the context's error instead of waiting for the monitor.
+func c07BlankWatcherCancel(w *fw.Worker, i int, r *fw.Rand) {
+	desc := map[string]any{"mode": "blank-setsource-watcher-context-ends-while-monitor-busy"}
+	w.BeginDesc(i, "blank-watcher-cancel")
+	c, err := c07Start(r, true, conc.Opts{NSrc: 2})
+	if err != nil {
+		w.Violation(i, "config-failed", err.Error(), desc)
+		return
+	}
+	e := c.e
+	defer e.Stop()
+	until := make(chan struct{})
+	type ret struct {
+		err     error
+		elapsed time.Duration
+	}
+	setRet := make(chan ret, 1)
+	go func() {
+		for k := 0; k < 200000 && !e.S.InVerify(); k++ {
+			time.Sleep(50 * time.Microsecond)
+		}
+		inner := &conc.WSrc{Src: conc.Src{Name: "inner-watcher", Init: e.RandLayer(r, 0, 0)}}
+		sctx, cancel := context.WithTimeout(e.S.Ctx, 40*time.Millisecond)
+		t0 := time.Now()
+		serr := c.blank.SetSource(sctx, inner)
+		cancel()
+		setRet <- ret{serr, time.Since(t0)}
+	}()
+	stillInside := make(chan string, 1)
+	go func() {
+		// keep the monitor parked until SetSource has returned; if it has not after 3s (75x its context's lifetime),
+		// look where it is: two dumps 300ms apart that both show the call parked inside Blank.SetSource mean it is
+		// waiting for something other than its (long expired) context
+		select {
+		case rt := <-setRet:
+			setRet <- rt
+			stillInside <- ""
+		case <-time.After(3 * time.Second):
+			g1 := dialsGoroutines([]string{"(*Blank).SetSource"})
+			time.Sleep(300 * time.Millisecond)
+			g2 := dialsGoroutines([]string{"(*Blank).SetSource"})
+			if len(g1) > 0 && len(g2) > 0 {
+				stillInside <- g2[0]
+			} else {
+				stillInside <- ""
+			}
+		}
+		close(until)
+	}()
+	reached, _ := e.HoldInVerify(1, 1, e.RandLayer(r, 0, 0), until)
+	if !reached {
+		w.Inconclusive(i, "the monitor never reached Verify for the parking report")
+		return
+	}
+	var rt ret
+	select {
+	case rt = <-setRet:
+	case <-time.After(10 * time.Second):
+		w.Inconclusive(i, "SetSource did not return at all")
+		return
+	}
+	w.Count("blank_watcher_setsource_cancellations", 1)
+	switch g := <-stillInside; {
+	case g != "":
+		w.Violation(i, "blocking-report-did-not-return-after-context-ended:blank-setsource-watcher", fmt.Sprintf("SetSource(watcher) with a 40ms context was still parked inside Blank.SetSource 3s later, while the monitor was busy; it returned (err=%v) only after the monitor was released (%v)", rt.err, rt.elapsed.Round(time.Millisecond)), map[string]any{"case": desc, "goroutine": fw.TrimStack(g)})
+	case rt.err == nil:
+		w.Violation(i, "setsource-returned-nil-while-monitor-was-parked", "SetSource(watcher) returned nil although the monitor was parked in Verify for another report the whole time", desc)
+	default:
+		w.Distinct("blank-watcher-cancel")
+	}
+}
+
 // c07EventsPollers: consumers poll Events() while two sources make blocking reports back to back; every report of a
 // valid value must return nil, and the view must then contain it.
 func c07EventsPollers(w *fw.Worker, i int, r *fw.Rand) {
@@ -360,6 +433,10 @@ func runC07(w *fw.Worker) {
 		}
 		if i%40 == 27 {
 			c07EventsPollers(w, i, r)
+			return
+		}
+		if i%40 == 33 {
+			c07BlankWatcherCancel(w, i, r)
 			return
 		}
 		placement := placements[(i+w.Shard)%len(placements)]
